@@ -1640,6 +1640,8 @@ class Interp:
             if isinstance(recv, Obj) and recv.name == "functools" and f.attr in ("reduce", "partial"):
                 pass  # functools.reduce is the builtin modelled below, whatever stands for the module in the scenario
             elif isinstance(recv, Obj) and recv.name != "tensorlib":  # the backend stand-in's methods are the array functions below, whatever the local variable is called
+                if recv.attrs.get("__strict_calls__"):
+                    raise Undecided(f"call of {recv.name}.{f.attr}(...): not one of the functions of that module the scenario models")
                 vals = self.eval_args(e.args)
                 try:
                     xa = [to_poly(v) for v in vals]
